@@ -145,7 +145,10 @@ TEXT = {
             "succeed on the complete tree with the same data and again related backings; serialisation gives the same bytes "
             "(C17_encoding); store level (PartialStore.v): any command that succeeds on a store of views over partial trees, "
             "hook propagation included, succeeds on the complete store and the stores stay related (C17_store_command). "
-            "Export / iteration over partial trees and the error classes of composed operations: "
+            "Reads (PartialReads.v): the element iterator is simulated by the complete tree's, the packed / bit iterators and "
+            "the object export agree with the complete tree whenever both return, and a successful export of a partial "
+            "version of a tree representing a value is that value's export (C17_export_is_value). "
+            "Error classes of composed operations and iterators stepped on after a failure: "
             "correspondence + model-free comparison of every read path with the complete tree.",
             "Coq proof (simulation relation summ, induction on paths) + correspondence", "5 (C17)"),
     "C18": ("Theorems: get_target_history (model of the fixed code, recursion on the gindex path with per-level "
